@@ -126,7 +126,13 @@ def asInt? : V → Option Int
 def sub (a b : V) : Option V := (asInt? a).bind fun x => (asInt? b).map fun y => V.int (x - y)
 
 /-- `a + b` on ints (string concatenation etc. is outside the model) -/
-def add (a b : V) : Option V := (asInt? a).bind fun x => (asInt? b).map fun y => V.int (x + y)
+def add (a b : V) : Option V :=
+  match a, b with
+  | .str x, .str y => some (.str (x ++ y))         -- concatenation of two `str`
+  | _, _ => (asInt? a).bind fun x => (asInt? b).map fun y => V.int (x + y)
+
+/-- `a * b` on numbers (`int` / `bool`); anything else is outside the model -/
+def mul (a b : V) : Option V := (asInt? a).bind fun x => (asInt? b).map fun y => V.int (x * y)
 
 /-- `a < b`, `a <= b`, `a > b`, `a >= b` on ints; `None` (TypeError), floats and strings are outside the model -/
 def lt (a b : V) : Option Bool := (asInt? a).bind fun x => (asInt? b).map fun y => decide (x < y)
